@@ -76,7 +76,7 @@ NEEDS3 = {
  "C07-3": ("the discounted graph copy is taken once per reachTarget", "two named parameters of one function converted from competing same-typed inputs, and an unlucky order"),
  "C07-4": ("the name discount is restricted to values of the parameter's subtype", "a *subtyped* named parameter needing conversion, competing same-typed inputs, an unlucky order"),
  "C10-3": ("Convert returns an exactly typed input directly without building the call graph", "a typed input of the target type together with a failing ConverterGen"),
- "C10-4": ("Convert turns an untyped-nil result into an error", "an interface-typed target, a converter declared to return an interface, returning nil without error. NOT REPORTED: converters returning nil interface values are outside the alphabet (every synthesised value carries a provenance term)"),
+ "C10-4": ("Convert turns an untyped-nil result into an error", "an interface-typed target, a converter declared to return an interface, returning nil without error (first not reported: nil interface results were outside the alphabet; reported since converters returning nil interface values were added to the iface tier)"),
  "C14-3": ("parsed struct tags are cached per tag string, including the resolved name", "a tag without a name (e.g. `,subtype=X`) reused on differently named fields: later fields report the first field's name"),
  "C14-4": ("the mixed-signature check only looks at position 0", "a marker struct mixed with other parameters/results, not in first position"),
  "C15-3": ("Func.outputValues looks type-only outputs up with TypedSubtype, which also matches named values", "a converter with a named and a type-only output of one type (named first) feeding a differently named parameter through the type-only vertex (reported by C01's provenance oracle on the multiout tier; built and ordinary functions are equally wrong, so C15's differential is silent)"),
